@@ -272,10 +272,9 @@ func Round(ctx *expr.Context, input system.Collection, args ...expr.Expression) 
 		return nil, err
 	}
 	// Rounding number
-	switch value.(type) {
+	switch value := value.(type) {
 	case system.Decimal:
-		res, _ := input[0].(system.Decimal)
-		result := res.Round(precision)
+		result := value.Round(precision)
 		return system.Collection{result}, nil
 	case system.Integer:
 		number, err := input.ToInt32()
